@@ -79,6 +79,12 @@ def states(tier, seed):
     # so that in a mixed combination the two modelled lattices have the same shape
     for model, sizes, pat, relief in itertools.product(["tube", "wingbox"], [(3, 2), (2, 3)], ["hh", "hf", "fh"], [False, True]):
         st.append(dict(part="as2", model=model, sizes=sizes, pat=pat, relief=relief, fam=fam))
+    # the Geometry group's scalar planform variables on the (left) half mesh and on the full mesh: the half is the left half of the full
+    # (right halves are covered - with their known findings - by C07's left-vs-right part; control-point variables are excluded: a
+    # B-spline maps equal control points differently onto half and full spans)
+    for pf, nx, ny, (dv, vals) in itertools.product(["swept", "twdi"], [2, 3], [3, 4], dict(sweep=[20.0, -10.0], dihedral=[7.0, -5.0], taper=[0.6, 1.3], span=[10.0, 6.0]).items()):
+        for v in vals:
+            st.append(dict(part="geom", pf=pf, nx=nx, ny=ny, dv=dv, val=v, fam=fam))
     return st, inadm
 
 
@@ -98,6 +104,33 @@ def surf_meshes(s):
 
 def run_state(s):
     return globals()["part_" + s["part"]](s)
+
+
+def part_geom(s):
+    from openaerostruct.geometry.geometry_group import Geometry
+
+    half = gen.make_mesh(s["pf"], s["nx"], s["ny"], "left", s["fam"])
+    full = full_of(half, "left")
+
+    def run(mesh, sym):
+        surf = builders.aero_surface("w", mesh, sym)
+        surf[s["dv"]] = s["val"]
+        p = om.Problem(reports=False)
+        p.model.add_subsystem("g", Geometry(surface=surf), promotes=["*"])
+        p.setup()
+        p.run_model()
+        return np.array(p["mesh"], dtype=float)
+
+    mh, mf = run(half, True), run(full, False)
+    ny = half.shape[1]
+    viol = []
+    e = np.abs(mh - mf[:, :ny]).max() / np.abs(mf).max()
+    if not e <= 1e-12:
+        viol.append(dict(sig=dict(oracle="half_vs_full", observable="Geometry.mesh", dv=s["dv"]), msg="Geometry with %s = %g: the half-model mesh differs from the left half of the full-span mesh by %.2e (rel.)" % (s["dv"], s["val"], e), measure=float(e)))
+    e2 = np.abs(mf - gen.mirror_mesh(mf)).max() / np.abs(mf).max()
+    if not e2 <= 1e-12:
+        viol.append(dict(sig=dict(oracle="full_span_result_mirror_symmetric", observable="Geometry.mesh", dv=s["dv"]), msg="Geometry with %s = %g on a mirror-symmetric full-span mesh gives a mesh that is not mirror-symmetric (%.2e)" % (s["dv"], s["val"], e2), measure=float(e2)))
+    return dict(viol=viol, nontrivial=bool(np.abs(mh - half).max() > 1e-9), digest=digest_arrays(mh), transitions=2, validated=2)
 
 
 def part_as2(s):
